@@ -4,10 +4,10 @@ From Resolvo Require Import Spec.Oracle Cdcl.CheckRun.
 
 (* the verified oracle run on every solution the implementation returns *)
 Theorem C01_oracle_correct : forall u P S,
-  o_valid u P S = true <-> valid (table_provider u) P S (exempt P S).
+  o_valid u P S = true <-> valid (table_provider u) P S (exempt (table_provider u) P S).
 Proof. exact o_valid_spec. Qed.
 Check C01_oracle_correct : forall u P S,
-  o_valid u P S = true <-> valid (table_provider u) P S (exempt P S).
+  o_valid u P S = true <-> valid (table_provider u) P S (exempt (table_provider u) P S).
 
 (* E2, for every provider, problem, clause database and total assignment: a model
    of a closed clause database (up to package-level clauses of exempt solvables)
@@ -21,16 +21,16 @@ Proof. exact E2. Qed.
 (* every final state the machine may announce as Ok(solution) is valid *)
 Theorem C01_final_state_valid : forall U P, WF U -> forall db tr sol,
   check_sat_lenient U P db tr sol = true ->
-  sol = rev (sel_of tr) /\ valid U P (sel_of tr) (exempt P (sel_of tr)).
+  sol = rev (sel_of tr) /\ valid U P (sel_of tr) (exempt U P (sel_of tr)).
 Proof. exact check_sat_lenient_sound. Qed.
 
 (* trace inclusion: if the checker accepts the implementation's log (clause dump,
    trail events, reported solution) then the reported solution is valid *)
 Theorem C01_trace_sound : forall u P lg sol,
-  check_sat_log_lenient u P lg sol = true -> valid (table_provider u) P sol (exempt P sol).
+  check_sat_log_lenient u P lg sol = true -> valid (table_provider u) P sol (exempt (table_provider u) P sol).
 Proof. exact sat_log_valid. Qed.
 Check C01_trace_sound : forall u P lg sol,
-  check_sat_log_lenient u P lg sol = true -> valid (table_provider u) P sol (exempt P sol).
+  check_sat_log_lenient u P lg sol = true -> valid (table_provider u) P sol (exempt (table_provider u) P sol).
 
 (* ---- the encoder model (Async/Encoder.v, tied to encoding.rs + cache.rs by
    clause-for-clause and call-for-call equality on every synchronous run) ---- *)
